@@ -10,7 +10,7 @@ import numpy
 import shapely
 import z3
 
-from .core import HarnessError, SymBool, SymReal, ctx, is_sym
+from .core import HarnessError, SymBool, SymInt, SymReal, ctx, is_sym
 
 
 class SymPoly:
@@ -132,3 +132,96 @@ def realise_hits(polygons, chosen):
         if got == want:
             out.append(g)
     return out
+
+
+class SymPoint:
+    """A query point with symbolic coordinates (stands in for shapely.Point)."""
+    geom_type = 'Point'
+
+    def __init__(self, x, y):
+        self.x, self.y = x, y
+
+    @property
+    def wkt(self):
+        return f'POINT ({self.x} {self.y})'
+
+
+def convex_contains(poly, px, py):
+    """Closed point-in-convex-polygon test as a z3 formula (polygon concrete,
+    point symbolic): the point is on the inner side of, or on, every edge."""
+    import fractions
+    ring = [(fractions.Fraction(x), fractions.Fraction(y)) for x, y in poly.exterior.coords[:-1]]
+    area2 = sum(a[0] * b[1] - b[0] * a[1] for a, b in zip(ring, ring[1:] + ring[:1]))
+    if area2 < 0:
+        ring = ring[::-1]
+    conds = []
+    for a, b in zip(ring, ring[1:] + ring[:1]):
+        ex, ey = b[0] - a[0], b[1] - a[1]
+        # cross((b-a),(p-a)) >= 0
+        conds.append(z3.RealVal(str(ex)) * (py.v - z3.RealVal(str(a[1]))) - z3.RealVal(str(ey)) * (px.v - z3.RealVal(str(a[0]))) >= 0)
+    return z3.And(*conds)
+
+
+class PointTree:
+    """STRtree contract for a symbolic query point over concrete convex polygons:
+    query(point, predicate='intersects') returns exactly the positions whose polygon
+    (closed) contains the point - decided by linear half-plane tests, one fork per
+    cell - in an order chosen by `perm` (an integer selecting one of the k! orders).
+    Other predicates on a point: within/covered_by = same as intersects minus/plus
+    boundary, touches = boundary only, contains/covers/overlaps/crosses = never
+    (a point cannot contain a polygon)."""
+
+    def __init__(self, geoms, perm=0):
+        self.geometries = numpy.asarray(geoms, dtype=object)
+        self.perm = perm
+        self.queries = []
+
+    def _interior(self, poly, p):
+        import fractions
+        ring = [(fractions.Fraction(x), fractions.Fraction(y)) for x, y in poly.exterior.coords[:-1]]
+        area2 = sum(a[0] * b[1] - b[0] * a[1] for a, b in zip(ring, ring[1:] + ring[:1]))
+        if area2 < 0:
+            ring = ring[::-1]
+        conds = []
+        for a, b in zip(ring, ring[1:] + ring[:1]):
+            ex, ey = b[0] - a[0], b[1] - a[1]
+            conds.append(z3.RealVal(str(ex)) * (p.y.v - z3.RealVal(str(a[1]))) - z3.RealVal(str(ey)) * (p.x.v - z3.RealVal(str(a[0]))) > 0)
+        return z3.And(*conds)
+
+    def query(self, geometry, predicate=None, distance=None):
+        self.queries.append(predicate)
+        if not isinstance(geometry, SymPoint):
+            raise HarnessError('PointTree expects a SymPoint')
+        c = ctx()
+        hits = []
+        for i, g in enumerate(self.geometries):
+            if g is None:
+                continue
+            closed = convex_contains(g, geometry.x, geometry.y)
+            if predicate in ('intersects', None, 'covered_by'):
+                cond = closed
+            elif predicate == 'within':
+                cond = self._interior(g, geometry)
+            elif predicate == 'touches':
+                cond = z3.And(closed, z3.Not(self._interior(g, geometry)))
+            elif predicate in ('contains', 'covers', 'overlaps', 'crosses', 'contains_properly'):
+                cond = z3.BoolVal(False)
+            else:
+                raise HarnessError(f'PointTree: predicate {predicate!r} not modelled')
+            if c.decide(cond):
+                hits.append(i)
+        k = len(hits)
+        if k > 1:
+            perms = list(itertools.permutations(range(k)))
+            sel = self.perm
+            if isinstance(sel, SymInt):
+                c.assume(SymBool(z3.And(sel.z >= 0, sel.z < len(perms)))) if False else None
+                which = None
+                for pi in range(len(perms)):
+                    if c.decide(sel.z % len(perms) == pi):
+                        which = pi
+                        break
+                hits = [hits[j] for j in perms[which]]
+            else:
+                hits = [hits[j] for j in perms[int(sel) % len(perms)]]
+        return numpy.array(hits, dtype=numpy.intp)
